@@ -20,7 +20,8 @@ TEXT = list("abcXYZ019") + [" ", " ", ",", ";", ":", "-", "_", "=", "(", ")", "!
 TERMINATORS = [" ", ",", ";", ":", "-", "(", ")", "!", "?", "/", "|", "+", "%", "&", "<", ">", "#", "@", "^", "{", "}"]
 REFS = [("headers", "a", None), ("headers", "b", None), ("headers", "2", None), ("headers", "0", None), ("headers", "zz", None), ("variables", "x", None), ("variables", "n", None),
         ("variables", "t", "k"), ("variables", "st", "0"), ("variables", "st", "length"), ("variables", "nope", None),
-        ("variables", "emp", "length"), ("variables", "emp", "0"), ("variables", "st", "7"), ("variables", "x", "k"),      # an empty stack, an index past the end, a key on a scalar ("metadata", "note", None), ("metadata", "id", None),
+        ("variables", "emp", "length"), ("variables", "emp", "0"), ("variables", "st", "7"), ("variables", "x", "k"),
+        ("variables", "late", "length"), ("variables", "late", "0"),      # written by print's second argument, which runs after the text was printed      # an empty stack, an index past the end, a key on a scalar ("metadata", "note", None), ("metadata", "id", None),
         ("csvpath", "line_number", None), ("csvpath", "count_lines", None), ("csvpath", "count_scans", None), ("csvpath", "count_matches", None), ("csvpath", "identity", None)]
 TYPES = {"variables": "TVariables", "headers": "THeaders", "metadata": "TMetadata", "csvpath": "TCsvpath"}
 CELLS = ["1", "22", "x y", " padded ", "", "Zed", "a,b", "7"]
@@ -80,7 +81,7 @@ def pystr(v):
     return f"{v}"
 
 
-def env_lit(rows, k, stack, ident):
+def env_lit(rows, k, stack, ident, late=None):
     """the values current when print runs on data line k (print is the last component; every line matches)"""
     line = rows[k]
     cell = lambda i: (line[i].strip() if i < len(line) else None)
@@ -90,6 +91,8 @@ def env_lit(rows, k, stack, ident):
     var.append(("st", ("l", [pystr(v) for v in stack])))
     var.append(("t", ("d", [("k", pystr(cell(3)))])))
     var.append(("emp", ("l", [])))                        # pushed and popped on every line: the stack exists and is empty
+    if late:
+        var.append(("late", ("l", [pystr(v) for v in late])))   # what print's second argument pushed on the EARLIER lines
 
     def vv(x):
         kind, val = x
@@ -106,14 +109,15 @@ def env_lit(rows, k, stack, ident):
 
 
 def impl(job):
-    chunks, rows, fname, qual = job
+    chunks, rows, fname, qual = job[:4]
+    second = ', push("late", #a)' if (len(job) > 4 and job[4]) else ""      # a function as second argument: it runs after the print
     from csvpath import CsvPath
     from csvpath.util.printer import TestPrinter
     gen.write_rows(fname, rows)
     template = "".join(c[1] if c[0] == "text" else ref_text(c[1]) for c in chunks)
     out = {"exc": None, "template": template}
     try:
-        text = f'~id: p1 note: hello there :~ ${fname}[1*][ @x = #a @n = count_scans() push("st", #b) push("emp", #a) @pp = pop("emp") @t.k = #c print{qual}("{template}") ]'
+        text = f'~id: p1 note: hello there :~ ${fname}[1*][ @x = #a @n = count_scans() push("st", #b) push("emp", #a) @pp = pop("emp") @t.k = #c print{qual}("{template}"{second}) ]'
         out["text"] = text
         with Quiet():
             p = CsvPath()
@@ -177,15 +181,18 @@ def run(ctx):
         cls_err = type(ex).__name__ + ": " + str(ex)[:200]
     jobs = []
     for i in range(700 if quick else 30000):
-        jobs.append((gen_template(rng), gen_rows(rng), f"c16_{i}.csv", ""))
+        jobs.append((gen_template(rng), gen_rows(rng), f"c16_{i}.csv", "", rng.random() < 0.3))
     tjobs = [(gen_template(rng, touching=True), gen_rows(rng), f"c16t_{i}.csv", "") for i in range(30 if quick else 500)]
     res = pmap(ctx, impl, jobs + tjobs, chunksize=16)
     lits = []
-    for (chunks, rows, fname, _), o in zip(jobs + tjobs, res):
-        envs, stack = [], []
+    for job, o in zip(jobs + tjobs, res):
+        chunks, rows = job[0], job[1]
+        second = len(job) > 4 and job[4]
+        envs, stack, late = [], [], []
         for k in range(1, len(rows)):
             stack.append(rows[k][2].strip() if len(rows[k]) > 2 else None)
-            envs.append(env_lit(rows, k, list(stack), "p1"))
+            envs.append(env_lit(rows, k, list(stack), "p1", list(late) if second else None))
+            late.append(rows[k][1].strip() if len(rows[k]) > 1 else None)
         printed = o.get("printed") if not o["exc"] else []
         lits.append(f"mkC16 {ulit(o['template'])} {listlit(chunks, chunk_lit)} [{'; '.join(envs)}] {listlit(printed or [], ulit)}")
     bad = coq_bad(ctx, "c16", "Csv.CsvModel Data.DataModel Match.Print Match.PrintProofs Harness.C16Cmp", "c16case", lits, ["c16_spec", "c16_agree false", "c16_agree true"], chunk=120)
@@ -248,10 +255,10 @@ def run(ctx):
                                          "disagreeing_case": case(sorted(i for i in bad["c16_agree false"] if i < nj)[0])}, no_input=True)
     ctx.coverage.update({
         "evaluations": len(jobs) + len(tjobs) + len(qjobs), "grammar_classes_from_source": cls_src, "grammar_class_code_points": len(c16_grammar.CODES),
-        "distinct_nontrivial": len({o["template"] for (c, r, f, q), o in zip(jobs, res) if sum(1 for x in c if x[0] == "ref") >= 2}),
+        "distinct_nontrivial": len({o["template"] for (c, r, f, q, _s), o in zip(jobs, res) if sum(1 for x in c if x[0] == "ref") >= 2}),
         "rule": "templates of 1-5 chunks: text over letters, digits, spaces and 27 punctuation characters (no '$', no '\"'), references of 17 kinds (variables plain/key/index/length/unknown, "
                 "headers by name/index/unknown, metadata, csvpath fields) adjacent (one terminator character apart), many characters apart, at start and end; printed by "
-                "[ @x = #a @n = count_scans() push(\"st\", #b) @t.k = #c print(\"...\") ] on every line of files with padded/empty/comma cells and ragged rows; + touching-reference templates; "
+                "[ @x = #a @n = count_scans() push(\"st\", #b) @t.k = #c print(\"...\") ] (30%: print(\"...\", push(\"late\", #a)), whose push must not be visible to the text printed on that line) on every line of files with padded/empty/comma cells and ragged rows; + touching-reference templates; "
                 "+ print / .once / .onmatch / .onmatch.once with 5 filters, 40% to a named printout. Non-trivial = distinct templates with >= 2 references.",
         "samples": [case(0), case(nj)],
         "templates": len(jobs), "touching_templates": len(tjobs), "qualifier_runs": len(qjobs), "exceptions": len(excs),
@@ -265,7 +272,7 @@ def run(ctx):
 def replay(ctx, payload):
     c = payload.get("case") or payload.get("disagreeing_case")
     if "chunks" in c:
-        o = impl(([tuple(x) if x[0] == "text" else ("ref", tuple(x[1])) for x in c["chunks"]], c["rows"], "replay_c16.csv", ""))
+        o = impl(([tuple(x) if x[0] == "text" else ("ref", tuple(x[1])) for x in c["chunks"]], c["rows"], "replay_c16.csv", "", 'push("late"' in (c.get("csvpath") or "")))
         print(repr(c["template"])); print("impl now:", o)
     else:
         print(c)
